@@ -46,8 +46,8 @@ def map_async(iterable, functor, *args, **kwds):
                 return
             yield item
 
-    def worker(*args):
-        result = functor(*args)
+    def worker(*args, **kwds):
+        result = functor(*args, **kwds)
         if result is not None:
             # avoid appending chars from a string into results
             if isinstance(result, GeneratorType):
